@@ -45,6 +45,10 @@ pub struct FdCase {
     /// instead of `MsgHdrBorrow::create_send`
     #[serde(default)]
     pub raw_send: bool,
+    /// SO_PASSCRED on the receiving socket: the kernel puts an SCM_CREDENTIALS message (28 bytes, not a multiple
+    /// of 8) in front of the SCM_RIGHTS one, so the control data holds two messages
+    #[serde(default)]
+    pub passcred: bool,
 }
 
 pub fn cmsg_space(data: usize) -> usize {
@@ -53,10 +57,15 @@ pub fn cmsg_space(data: usize) -> usize {
 
 impl FdCase {
     pub fn space(&self) -> usize {
-        if self.nfds == 0 && !self.empty_rights {
-            0
+        let rights = if self.nfds == 0 && !self.empty_rights { 0 } else { cmsg_space(4 * self.nfds as usize) };
+        rights + self.cred_space()
+    }
+    /// room the credentials message takes (sizeof(struct ucred) = 12)
+    pub fn cred_space(&self) -> usize {
+        if self.passcred {
+            cmsg_space(12)
         } else {
-            cmsg_space(4 * self.nfds as usize)
+            0
         }
     }
     pub fn ctrl_len(&self) -> usize {
@@ -199,6 +208,13 @@ fn body(c: &FdCase, stage_fd: i32) -> Outcome {
         return o;
     }
     let (a, b) = (OwnedRaw(sv[0]), OwnedRaw(sv[1]));
+    if c.passcred {
+        let one: libc::c_int = 1;
+        if unsafe { libc::setsockopt(b.fd(), libc::SOL_SOCKET, libc::SO_PASSCRED, (&one as *const libc::c_int).cast(), 4) } != 0 {
+            o.inconclusive = Some(format!("setsockopt(SO_PASSCRED): errno {}", errno()));
+            return o;
+        }
+    }
     let data: Vec<u8> = (0..c.data_len.max(1)).map(|i| i.wrapping_mul(37).wrapping_add(c.nfds)).collect();
 
     // ---- send
@@ -206,7 +222,7 @@ fn body(c: &FdCase, stage_fd: i32) -> Outcome {
     let io_out = [IoSlice::new(&data)];
     let ctrl = if c.nfds > 0 || c.empty_rights { Some(ControlMessageSend::ScmRights(&fds)) } else { None };
     let sent_n = if c.raw_send {
-        let spc = c.space().max(8);
+        let spc = (c.space() - c.cred_space()).max(8);
         let area = Guarded::at_end(spc);
         let area_ptr: *mut u8 = unsafe { area.as_ptr().add(area.len() - spc) };
         let mut iov = libc::iovec { iov_base: data.as_ptr() as *mut libc::c_void, iov_len: data.len() };
@@ -383,7 +399,8 @@ fn body(c: &FdCase, stage_fd: i32) -> Outcome {
     }
     // the kernel hands over as many descriptors as the supplied buffer has room for after one header:
     // (len - sizeof(cmsghdr)) / sizeof(int) (scm_max_fds), the last message needs no trailing padding
-    let room = if clen > 16 { (clen - 16) / 4 } else { 0 };
+    // (with SO_PASSCRED the credentials message comes first and takes its 32 bytes)
+    let room = if clen > 16 + c.cred_space() { (clen - 16 - c.cred_space()) / 4 } else { 0 };
     if received.len() < sent_ids.len().min(room) {
         o.fail_sig = Some(format!("fdpass|descriptors-lost|the supplied control buffer has room for them|{}", c.size_class()));
         o.fail_what = format!("{} descriptors sent, control buffer of {clen} bytes has room for {room} (one 16-byte header + 4 bytes each), {} received (MSG_CTRUNC={}): the kernel was not offered the whole buffer", sent_ids.len(), received.len(), o.ctrunc);
@@ -580,6 +597,7 @@ pub fn run_fdpass(c: &FdCase) -> CaseResult {
     rep.class_if(c.nfds == 0, "no-descriptors");
     rep.class_if(c.nfds == 32, "32-descriptors");
     rep.class_if(c.raw_send, "sent-through-MsgHdr-update_control");
+    rep.class_if(c.passcred && outcome.delivered > 0, "credentials-message-in-front-of-the-descriptors");
     rep.class_if(c.fill == 2, "stale-message-in-buffer");
     rep.class_if(outcome.delivered > 0, "descriptors-delivered");
     // non-trivial: a control buffer that is not the comfortable zeroed oversize one of the tests
@@ -598,5 +616,5 @@ pub fn fd_strategy() -> impl Strategy<Value = FdCase> {
         1 => Just(-4000i16),
         1 => prop::sample::select(vec![-4i16, -8, -12, -16, -20, -24]),
     ];
-    (nfds, any::<bool>(), rel, any::<bool>(), 0u8..4, any::<bool>(), 1u8..=64, prop::bool::weighted(0.25)).prop_map(|(nfds, empty_rights, rel, no_buffer, fill, boxed, data_len, raw_send)| FdCase { nfds, empty_rights, rel, no_buffer, fill, boxed, data_len, raw_send })
+    (nfds, any::<bool>(), rel, any::<bool>(), 0u8..4, any::<bool>(), 1u8..=64, prop::bool::weighted(0.25), prop::bool::weighted(0.3)).prop_map(|(nfds, empty_rights, rel, no_buffer, fill, boxed, data_len, raw_send, passcred)| FdCase { nfds, empty_rights, rel, no_buffer, fill, boxed, data_len, raw_send, passcred })
 }
